@@ -297,7 +297,12 @@ def evaluate__substring(self: XPathFunction, context: ta.ContextType = None) -> 
     item: str = self.get_argument(context, default='', cls=str)
     try:
         start = self.get_argument(context, index=1, required=True)
-        if math.isnan(start) or math.isinf(start):
+        if isinstance(start, UntypedAtomic):
+            start = self.cast_to_double(start.value)
+
+        if isinstance(start, int):
+            pass  # an integer of any size is a finite number
+        elif math.isnan(start) or math.isinf(start):
             if len(self) == 2 and start < 0:
                 return item  # from -INF: the whole string
             return ''
@@ -307,14 +312,21 @@ def evaluate__substring(self: XPathFunction, context: ta.ContextType = None) -> 
         else:
             raise self.error('FORG0006', "the second argument must be xs:numeric") from None
     else:
-        start = int(round_number(start)) - 1
+        start = (start if isinstance(start, int) else int(round_number(start))) - 1
 
     if len(self) == 2:
         return item[max(start, 0):]
     else:
         try:
             length = self.get_argument(context, index=2, required=True)
-            if math.isnan(length) or length <= 0:
+            if isinstance(length, UntypedAtomic):
+                length = self.cast_to_double(length.value)
+
+            if isinstance(length, int):
+                if length <= 0:
+                    return ''
+                return item[slice(max(start, 0), max(start + length, 0))]
+            elif math.isnan(length) or length <= 0:
                 return ''
         except TypeError:
             if isinstance(context, XPathSchemaContext):
